@@ -1576,6 +1576,8 @@ def run(ctx):
         part1_codegen(ctx, report)
         part2(ctx, report)
         part2_dtype(ctx, report)
+        import extra_oracles
+        extra_oracles.c14_deferred_prepare(ctx, e3nn, ejit, lambda: o3.Linear("2x0e+1x1o", "1x0e+1x1o"))
     finally:
         _reset_defaults(e3nn, saved)
 
